@@ -174,8 +174,8 @@ std::vector<Verifier> &verifiers() {
 }
 
 // ---------------------------------------------------------------------------------------------------------------
-enum Tamper { NONE, FLIP, TRUNC, EXTEND, SWAPTAG };
-const char *TN[] = { "none", "flip", "truncate", "extend", "swap" };
+enum Tamper { NONE, FLIP, TRUNC, EXTEND, SWAPTAG, FLIP2 };
+const char *TN[] = { "none", "flip", "truncate", "extend", "swap", "flip2" };
 
 struct Case {
     int v; size_t mlen, adlen; uint64_t cseed; int tamper; int field; size_t arg; unsigned long mask;
@@ -246,6 +246,13 @@ bool run(const Case &c, std::string &msg) {
         snprintf(what, sizeof what, "bit %zu of %s flipped, mlen %zu", bit, fd.name, c.mlen);
         break;
     }
+    case FLIP2: {   // the same bit flipped in two bytes a lane width apart: differences that cancel in an XOR-folding / lane-wise comparison
+        size_t bit = c.arg & 0xffffffffu, dist = c.arg >> 32;
+        if (bit / 8 + dist >= t.f[c.field].size()) return true;
+        t.f[c.field][bit / 8] ^= (uint8_t) (1u << (bit % 8)); t.f[c.field][bit / 8 + dist] ^= (uint8_t) (1u << (bit % 8));
+        snprintf(what, sizeof what, "bit %zu of %s flipped together with the same bit %zu bytes further on, mlen %zu", bit, fd.name, dist, c.mlen);
+        break;
+    }
     case TRUNC:
         if (c.arg >= t.f[c.field].size()) return true;
         if (c.arg < fd.protect_prefix) return true;
@@ -272,7 +279,7 @@ bool run(const Case &c, std::string &msg) {
 
 std::vector<unsigned long> masks02(bool thorough) {
     std::vector<unsigned long> out;
-    for (auto &m : mask_set(true)) if (m.name == "all" || (thorough && (m.name == "-avx2" || m.name == "none")) || m.name == "all-aes") out.push_back(m.mask);
+    for (auto &m : mask_set(true)) if (m.name == "all" || (thorough && m.name == "-avx2") || m.name == "none" || m.name == "all-aes") out.push_back(m.mask);
     return out;
 }
 
@@ -303,7 +310,10 @@ void explore_f(Ctx &ctx, const char *family) {
             size_t adlen = mlen <= 96 ? (mlen * 5 + vi) % 40 : (mlen * 7 + vi * 13) % 700;      // long tuples also carry long associated data (sampled bit positions)
             for (unsigned long mask : masks) {
                 uint64_t cs = r.next();
-                if (mask != masks[0] && !(std::string(V.name).find("aegis") != std::string::npos || std::string(V.name).find("aes256gcm") != std::string::npos || ctx.thorough())) continue;
+                // quick tier: AES-based verifiers under every mask; the others under "all" and, for the exhaustive short lengths, also
+                // with every SIMD feature masked off (portable Poly1305 / ChaCha20 / Salsa20 / BLAKE2b backends authenticate too)
+                bool aes = std::string(V.name).find("aegis") != std::string::npos || std::string(V.name).find("aes256gcm") != std::string::npos;
+                if (mask != masks[0] && !ctx.thorough() && !aes && !(mask == 0 && mlen <= 96 && !pk_slow && (mlen % 16 <= 1 || mlen == 33 || mlen == 65))) continue;
                 if (!ctx.mine(idx++)) continue;
                 auto go = [&](int tamper, int field, size_t arg, bool nt) {
                     Case c{ (int) vi, mlen, adlen, cs, tamper, field, arg, mask };
@@ -324,6 +334,17 @@ void explore_f(Ctx &ctx, const char *family) {
                         if (V.dontcare(fi, bb, mlen)) continue;
                         go(FLIP, (int) fi, bb, true);
                     }
+                    if (nbits >= 64 && nbits <= 1024) {       // keys, nonces, tags, short ciphertexts: paired flips 4 / 8 / 16 / 32 bytes apart
+                        for (size_t dist : { (size_t) 4, (size_t) 8, (size_t) 16, (size_t) 32 }) {
+                            if (dist * 8 >= nbits) continue;
+                            size_t span = nbits - dist * 8, st2 = pk_slow && !ctx.thorough() ? span / 4 + 1 : (span > 64 ? span / 32 : 1);
+                            for (size_t bit = fd.protect_prefix * 8; bit < span; bit += st2) {
+                                size_t bb = bit + (size_t) ((cs >> 11) % st2); if (bb >= span) bb = span - 1;
+                                if (V.dontcare(fi, bb, mlen) || V.dontcare(fi, bb + dist * 8, mlen)) continue;
+                                go(FLIP2, (int) fi, bb | (dist << 32), true);
+                            }
+                        }
+                    }
                     if (fd.var) {
                         size_t n = shape.f[fi].size();
                         size_t tstep = (full || n < 128) ? 1 : n / 64;
@@ -343,7 +364,7 @@ bool replay(const KV &k, std::string &msg) {
     for (size_t i = 0; i < verifiers().size(); i++) if (k.gs("api") == verifiers()[i].name) c.v = (int) i;
     if (c.v < 0) { msg = "unknown api"; return false; }
     c.mlen = k.gu("mlen"); c.adlen = k.gu("adlen"); c.cseed = k.gu("cseed"); c.tamper = 0;
-    for (int i = 0; i < 5; i++) if (k.gs("tamper") == TN[i]) c.tamper = i;
+    for (int i = 0; i < 6; i++) if (k.gs("tamper") == TN[i]) c.tamper = i;
     c.field = (int) k.gu("field"); c.arg = k.gu("arg"); c.mask = k.gu("mask");
     return run(c, msg);
 }
